@@ -904,6 +904,13 @@ func (bc *Blockchain) resetRAMState(height uint32, resetHeaders bool) error {
 	if err != nil {
 		return fmt.Errorf("failed to get current block: %w", err)
 	}
+	for _, tx := range block.Transactions {
+		stx, _, err := bc.dao.GetTransaction(tx.Hash())
+		if err != nil {
+			return fmt.Errorf("failed to get transaction of the current block: %w", err)
+		}
+		*tx = *stx
+	}
 	bc.topBlock.Store(block)
 	atomic.StoreUint32(&bc.blockHeight, height)
 	atomic.StoreUint32(&bc.persistedHeight, height)
